@@ -534,10 +534,13 @@ PROPS = {
             "conc": [("ttl", 300)], "monitor_kinds": ["STUCK", "NONLIN"], "known_classes": True, "known_from": "C04",
             "relevant": "RMWT"},
     "C07": {"seq": [("counter", 1024, 1000000, 15, 40), ("counter", 1024, None, 100, 50), ("cas", 1024, None, 20, 40), ("ttl", 1024, None, 20, 40)],
-            "relevant": "RMW"},
+            "conc": [("ttl", 200)], "pol": 60, "monitor_kinds": ["STUCK", "NONLIN", "VANISH"], "known_classes": True, "known_from": "C04",
+            "relevant": "RMWTP"},
     "C08": {"seq": [("flush", 1024, 1000000, 15, 40), ("flush", 1024, None, 80, 50), ("ttl", 1024, None, 40, 50), ("cas", 1024, None, 30, 40),
                     ("wide", 1024, None, 30, 40)],
-            "conn": [("flush", 1024, None, 30, 30), ("quiet", 1024, None, 15, 25)], "relevant": "RMW"},
+            "conn": [("flush", 1024, None, 30, 30), ("quiet", 1024, None, 15, 25)],
+            "conc": [("ttl", 300)], "pol": 60, "monitor_kinds": ["STUCK", "NONLIN", "VANISH"], "known_classes": True, "known_from": "C04",
+            "relevant": "RMWTP"},
     "C09": {"seq": [("cuts", 1024, None, 60, 30), ("malformed", 1024, None, 60, 30), ("malformed", 100, None, 40, 30),
                     ("cuts", 64, None, 30, 30)],
             "conn": [("cuts", 1024, None, 30, 25), ("malformed", 100, None, 30, 25), ("malformed", 1024, None, 20, 25),
@@ -554,7 +557,8 @@ PROPS = {
             "conn": [("quiet", 1024, None, 30, 25), ("mix", 1024, None, 30, 25), ("flush", 1024, None, 20, 25),
                      ("big", 1048576, None, 6, 14)], "relevant": "RSWM"},
     "C13": {"seq": [("malformed", 100, None, 60, 30), ("malformed", 64, None, 40, 30), ("cuts", 100, None, 30, 30)],
-            "conn": [("malformed", 100, None, 40, 25), ("malformed", 1024, None, 20, 25), ("cuts", 64, None, 20, 25)],
+            "conn": [("malformed", 100, None, 40, 25), ("malformed", 1024, None, 20, 25), ("cuts", 64, None, 20, 25),
+                     ("idle", 100, None, 3, 14)],
             "cfg": 6, "relevant": "RSMW"},
     "C14": {"seq": [("policy", 1024, 100, 40, 60), ("policy", 1024, 300, 40, 60), ("policy", 1024, 30, 20, 60),
                     ("policy", 1024, 1000, 30, 60), ("counter", 1024, 120, 20, 50), ("flush", 1024, 200, 20, 50),
